@@ -227,10 +227,31 @@ let sweep_case r k =
       emit ~fn:"NoPanicSweep" ~tag:(e ^ ".sweep_" ^ mode ^ "." ^ origin) ~s:"ok" ~m:"ok" [ e; h; string_of_int p; mode ]
     end
 
+(* amplification bombs: self-similar nested containers in which several children of one container point at the SAME
+   bytes (JSONB: an entry whose stored end offset runs backwards resets the running offset), so that naive recursive
+   decoding does 2^depth or 3^depth work on a few hundred bytes.  Found in the unchanged tree by an independent seeding
+   agent and repaired (fix: reject backward offsets); kept as a directed stream. *)
+let jsonb_bomb r depth fan : byte list =
+  let rec level d =
+    if d = 0 then le32 0x40000000 else begin
+      let c = level (d - 1) in
+      let l = List.length c in
+      let ents = List.concat (List.init fan (fun i ->
+          if i = 0 then [ le32 (0x50000000 lor l) ]
+          else [ le32 (0x80000000 lor 0x40000000 lor (pick r [| 0; 0; 1; l - 1 |] land 0x0fffffff)); le32 (0x50000000 lor l) ])) in
+      le32 (0x40000000 lor (List.length ents)) @ List.concat ents @ c end in
+  level depth
+let bomb_case r k =
+  let depth = pick r [| 18; 24; 30; 40; 60 |] and fan = pick r [| 2; 2; 3 |] in
+  let v = jsonb_bomb r depth fan in
+  let e = pick r [| "ParseJSONB"; "DecodeType" |] in
+  emit ~fn:"NoPanic" ~tag:(Printf.sprintf "%s.jsonb_overlap_bomb_d%d_f%d" e depth fan) ~s:"ok" ~m:"ok" [ e; hexf v; "-"; "3802" ]
+
 let gen seed n =
   for k = 0 to n - 1 do gen_case (rng_for seed k) k done;
   for k = 0 to n / 3 do corpus_case (rng_for seed (7000000 + k)) k done;
   for k = 0 to n / 12 do sweep_case (rng_for seed (8000000 + k)) k done;
+  for k = 0 to 11 do bomb_case (rng_for seed (8500000 + k)) k done;
   for k = 0 to n / 30 do vl_case (rng_for seed (9000000 + k)) k done;
   for k = 0 to n / 10 do loc_case (rng_for seed (5000000 + k)) k done;
   for k = 0 to n / 45 do loc2_case (rng_for seed (6000000 + k)) k done
